@@ -13,6 +13,40 @@ CLAIMED = {
              'evaluated by the model inside Coq (vm_compute) and by AlignmentResultRow.cigarString; the verified replay checker is also evaluated in '
              'Coq on the strings the implementation returns.',
         note=NOTE + 'cigarString only reads label numbers.', design='6 (C03)', technique='Coq proof by induction over the generator loop + differential correspondence (vm_compute) + replay oracle'),
+    'C13': dict(
+        text='Theorems in coq/props/C13.v over the fold model of the segment builder (incl. the stale currentSegment quirk): returned ranges are ordered, '
+             'separated, contiguous; score = sum >= minScore; every prefix positive and less than breakSegmentThreshold below every earlier prefix; first '
+             'maximum; no extension to a higher score without violating a prefix condition; single empty segment iff no range. All score lists, all thresholds. '
+             'Tie: exhaustive enumeration over {-3..3}^(<=5|6) x 7 threshold pairs + random realistic sequences, model evaluated in Coq vs getSegments.',
+        note=NOTE + 'Scores are exactly representable numbers.', design='6 (C13)', technique='Coq proof by fold invariant + exhaustive/random differential correspondence + property oracle'),
+    'C12': dict(
+        text='Theorems in coq/props/C12.v about the output list of the model of AlignerEngine.align for all sorted maps, seeds, distances, both strands, '
+             'label-number offsets: partition of window/query labels (Permutation, NoDup), ascending output with the stable tie order, offsets and inclusive bound, '
+             'one-to-one and order preserving, pairs in output order strictly monotone (also on every contiguous sub-run), mutual nearest neighbours paired. '
+             'Tie: exhaustive small lattices (1.2e5 thorough) + random maps with ties/boundary labels vs the real AlignerEngine.',
+        note=NOTE, design='6 (C12)', technique='Coq proof (stable sort/groupby/first-minimum semantics, midpoint argument) + exhaustive lattice correspondence + oracle'),
+    'C17': dict(
+        text='Theorems in coq/props/C17.v over the model of CmapReader.__read and OpticalMap.trim: exact result (ids ascending, sorted label multiset, truncated first end marker), '
+             'error iff labelled molecule without end marker, invariance under row permutation, id filter = restriction, trim geometry and idempotence; boolean checkers proved '
+             'equivalent to the statements. Tie: exhaustive tiny row lists + generated CMAP text read by the real reader vs the model on independently parsed rows.',
+        note=NOTE + 'pandas text parsing (read_csv, header-driven usecols) is tied by correspondence only.', design='6 (C17)', technique='Coq proof + differential correspondence on generated CMAP files + oracle'),
+    'C20': dict(
+        text='Theorems in coq/props/C20.v over the model of cluster_indels (repaired code), write_indel_file ordering and both look_for_indels_in_breakage call builders: '
+             'Count sum and id conservation, no mixing, interval cover (min/max attained), exact summary, writer conservation up to permutation, call self-consistency and sign/type equivalence. '
+             'Tie: random sorted/unsorted call lists dense around the blur boundary, write_indel_file round trip, both finders driven with fake alignments.',
+        note=NOTE + 'Integer positions in the model; sv/ scripts imported with /repo/sv on sys.path.', design='6 (C20)', technique='Coq proof by loop invariant + differential correspondence + oracle'),
+    'C15': dict(
+        text='Theorems in coq/props/C15.v over the model of conflict resolution: one resolution step returns a prefix of the left and a suffix of the right member with the same peaks and '
+             'scores recomputed as sums (all five outcomes), __sub__ removes exactly a suffix/prefix; (lift to the whole stack-based resolver, keeps-outside and disjointness: in progress, see DESIGN.md). '
+             'Tie: Aligner.align on ladders of peaks, indel blocks, dense lattices, score-folding and fragment cases: the full candidate pipeline model (pairing, scoring, factory, chainer, resolver, row, HitEnum) '
+             'is evaluated in Coq and compared segment by segment; oracle: sub-run / no re-scoring / no shared label or crossing / pairs outside every overlap kept.',
+        note=NOTE + 'Coordinates on the 0.5 grid, parameters on the exact grid; join-score division covered by C14.', design='6 (C15)', technique='Coq proof (sub-run lemmas) + pipeline differential correspondence + oracle'),
+    'C01': dict(
+        text='coq/props/C01.v: the verified checker valid_rowb is sound and complete for the property statement (labels exist, strictly ascending reference, strictly monotone query per strand, '
+             'non-empty) and a valid matching is one-to-one; the checker is evaluated INSIDE Coq on every row the implementation returns, next to the pipeline model correspondence '
+             '(Aligner.align cases and the candidates of real end-to-end runs captured through COMA\'s extension mechanism); every record of every XMAP file of the four modes is checked from the file text. '
+             'Pipeline theorems (C12_pairs_in_order_subrun for segments; resolver disjointness) are added as they close.',
+        note=NOTE + 'End-to-end runs: Program(args, extensions) in subprocesses; independent CMAP/XMAP text parsers.', design='6 (C01)', technique='verified checker (Coq) evaluated on implementation outputs + pipeline correspondence + end-to-end oracle'),
 }
 PENDING_REASON = 'check not built yet in this round (planned: DESIGN.md section 6); will be claimed once its model, theorems and correspondence run'
 
